@@ -1259,6 +1259,11 @@ func runC16(args []string) error {
 		"rp":   g.rpCases(200 * s),
 		"ru":   g.ruCases(60 * s),
 		"u8":   g.u8Cases(300 * s),
+		"js":   g.jsCases(200 * s),
+		"b64":  g.b64Cases(150 * s),
+		"jw":   g.jwCases(200*s, *big),
+		"ctx":  g.ctxCases(40 * s),
+		"cc":   g.ccCases(200 * s),
 		"dist": g.dist,
 		"keys": map[string]string{"error": hx(requestreply.ErrorMetadataKey), "has_error": hx(requestreply.HasErrorMetadataKey)},
 	}
